@@ -10,7 +10,7 @@ seeds="$*"; [ -n "$seeds" ] || seeds=$(ls seeded)
 fail=0
 for s in $seeds; do
   checks=$(python3 -c "import json;m=json.load(open('seeded/$s/meta.json'));print(' '.join(c for c,v in m.get('detected_by',{}).items() if v))")
-  git -C "$R" checkout -q -- . ; git -C "$R" apply seeded/$s/patch.diff || { echo "$s: patch does not apply"; fail=1; continue; }
+  git -C "$R" checkout -q -- . ; git -C "$R" apply "$(pwd)/seeded/$s/patch.diff" || { echo "$s: patch does not apply"; fail=1; continue; }
   got=""
   for c in $checks; do
     ./run.sh $c quick > seed_regress_$s_$c.log 2>&1; rc=$?
